@@ -309,7 +309,7 @@ def gen_problem(rng, cls, thorough):
         prob['none_sens'] = [int(rng.integers(len(vars_)))]
     prob['params'] = params
     if cls == 'malformed':
-        m = str(rng.choice(['positive-gradient', 'positive-gradient', 'positive-gradient', 'none-state', 'unbound-xnew', 'maxit-zero',
+        m = str(rng.choice(['positive-gradient', 'positive-gradient', 'positive-gradient', 'none-state', 'degenerate-interval', 'maxit-zero',
                             'outside-box']))
         prob['malformed'] = m
         if m == 'positive-gradient':
@@ -322,7 +322,7 @@ def gen_problem(rng, cls, thorough):
                 params['xmin'] = 0.01
         elif m == 'none-state':
             vars_[int(rng.integers(len(vars_)))] = dict(kind='none')
-        elif m == 'unbound-xnew':
+        elif m == 'degenerate-interval':      # l2init <= l1init: the bisection body never runs (before F19: NameError)
             params['l1init'] = 5.0
             params['l2init'] = float(rng.choice([5.0, 4.0, 5.00001]))
             params['l1l2tol'] = 1e-4
@@ -335,7 +335,7 @@ def gen_problem(rng, cls, thorough):
 
 
 # ----------------------------------------------------------------------------- implementation-side oracle
-# NEW finding (reported to the integrator; findings/NEW_C17_oc_volume_large_gradients.py): stable triple
+# finding F19 (fixed in ebed191; findings/F19_C17_oc_volume_large_gradients.py): its triple, used when the class regresses
 FINDING_SITE = 'minimize_oc'
 FINDING_PRED = 'volume equals maxvol when reachable within the move limits'
 FINDING_CLASS = 'update at l2init still exceeds maxvol (multiplier interval [l1init, l2init] too small)'
@@ -343,20 +343,24 @@ FINDING_CLASS = 'update at l2init still exceeds maxvol (multiplier interval [l1i
 
 def reference_volume_gap(x, g, lo, hi, maxvol, l1, l2, tol):
     """independent statement of 'volume equals maxvol to bisection tolerance': locate the multiplier at which the
-    volume of the clipped update crosses maxvol (if it does inside (l1, l2)) and return the volume change across an
-    interval of +-tol around it; None when the target is not bracketed by the multiplier interval"""
+    volume of the clipped update crosses maxvol and return the volume change across an interval of +-2*tol around it;
+    None when the target cannot be bracketed (not reachable by the update within the move limits, or l1init too large)"""
     g = np.minimum(g, 0)
 
     def vol(lam):
-        return float(np.sum(np.clip(x * np.sqrt(-g / lam), lo, hi)))
-    a, b = max(l1, 1e-300), l2
+        with np.errstate(all='ignore'):
+            return float(np.sum(np.clip(x * np.sqrt(-g / lam), lo, hi)))
+    if not (l2 > 0) or not (l1 < l2):
+        return None
+    b = l2
+    while vol(b) > maxvol and b < 1e300:
+        b *= 10
     if not (vol(b) <= maxvol):
         return None
-    if a <= 1e-300:
-        a = min(1e-12, b * 1e-12)
+    a = l1 if l1 > 0 else min(1e-12, b * 1e-12)
     if not (vol(a) > maxvol):
         return None
-    for _ in range(200):
+    for _ in range(300):
         m = 0.5 * (a + b)
         if vol(m) > maxvol:
             a = m
@@ -368,7 +372,7 @@ def reference_volume_gap(x, g, lo, hi, maxvol, l1, l2, tol):
 
 def oracle(ctx, prob, rec, hits):
     """bounds, move limit, volume, convergence -- on the implementation's recorded designs"""
-    if rec['err'] is not None or prob.get('malformed') in ('none-state', 'unbound-xnew', 'outside-box'):
+    if rec['err'] is not None or prob.get('malformed') in ('none-state', 'degenerate-interval', 'outside-box'):
         return
     p = dict(DEFAULTS, **prob['params'])
     designs = [np.concatenate([np.array([c[1]] if c[0] == 'scalar' else c[1], dtype=float) for c in st]) for st in rec['states']]
@@ -418,25 +422,22 @@ def oracle(ctx, prob, rec, hits):
         ref = reference_volume_gap(x, g, lo, hi, maxvol, float(p['l1init']), float(p['l2init']), float(p['l1l2tol']))
         gap = abs(float(np.sum(seq[k])) - maxvol)
         if ref is None:
-            # not bracketed by the multiplier interval.  Reachable by the update within the move limits?
-            gc = np.minimum(g, 0)
-            reach_lo, reach_hi = float(lo.sum()), float(np.where(gc < 0, hi, lo).sum())
-            marg = 1e-6 * max(1.0, abs(maxvol))
-            vol_l2 = float(np.sum(np.clip(x * np.sqrt(-gc / float(p['l2init'])), lo, hi)))
-            if reach_lo + marg <= maxvol <= reach_hi - marg and vol_l2 > maxvol + marg and float(p['l1init']) < float(p['l2init']):
-                ctx.count('oracle:volume reachable within the move limits but above l2init')
-                if gap > marg:
-                    hits.append((info, FINDING_PRED, f'design {k}: volume {float(np.sum(seq[k]))} instead of {maxvol}: the update at '
-                                 f'l2init = {p["l2init"]} still has volume {vol_l2}', FINDING_CLASS))
-                    return
-            else:
-                ctx.count('oracle:volume target not reachable / not bracketed (not demanded)')
+            ctx.count('oracle:volume target not reachable by the update / l1init too large (not demanded)')
             continue
+        gc = np.minimum(g, 0)
+        with np.errstate(all='ignore'):
+            vol_l2 = float(np.sum(np.clip(x * np.sqrt(-gc / float(p['l2init'])), lo, hi)))
+        needs_growth = vol_l2 > maxvol
+        if needs_growth:
+            ctx.count('oracle:volume reachable only above l2init (bracket growing needed, F19)')
         gaps.append(gap)
         ctx.count('oracle:volume checked')
         if gap > ref + 1e-9 * max(1.0, abs(maxvol)):
-            hits.append((info, 'volume equals maxvol to bisection tolerance',
-                         f'design {k}: |sum - maxvol| = {gap} exceeds the volume change {ref} across the final multiplier interval'))
+            msg = f'design {k}: |sum - maxvol| = {gap} exceeds the volume change {ref} across the final multiplier interval'
+            if needs_growth:      # the class of fixed finding F19: reported with its original triple
+                hits.append((info, FINDING_PRED, msg + f' (the update at l2init = {p["l2init"]} has volume {vol_l2} > maxvol)', FINDING_CLASS))
+            else:
+                hits.append((info, 'volume equals maxvol to bisection tolerance', msg))
             return
     if gaps:
         ctx.extra['observed_max_volume_gap'] = max(ctx.extra.get('observed_max_volume_gap', 0.0), max(gaps))
@@ -485,7 +486,7 @@ def run(ctx):
     ctx.rule = ('full minimize_oc runs on the real implementation with a recording module in the user\'s network; 1-4 variable signals '
                 '(scalars, 1-D and 2-D arrays), scalar/per-variable/default bounds, move limits incl. 0, default/reachable/unreachable '
                 'volume targets, objectives sum c/x, sum c x^-p, 10 - w.x, sum c exp(-x), sensitivities that are None; classes: small '
-                '(n <= 7), large (8 <= n <= 300: numpy pairwise summation), malformed (positive gradients, None state, unbound xnew, '
+                '(n <= 7), large (8 <= n <= 300: numpy pairwise summation), large-gradient (F19), malformed (positive gradients, None state, l2init <= l1init, '
                 'maxit = 0, start outside the box); every recorded signal state at every response(), every warning and the final states '
                 'are compared bit-exactly (binary64) with the Coq model; a case is non-trivial when at least one design was written back; '
                 'distinct by the full problem description')
@@ -495,7 +496,8 @@ def run(ctx):
         'the network returns sensitivities of the size of the states (premise of C17_iterates_in_box)',
         'volume clause: proved in multiplier space (bracketing); the size of the volume gap for a given l1l2tol is validated, not proved',
         'convergence to the analytic optimum is validated (fixed point is proved)',
-        'the multiplier interval [l1init, l2init] must bracket the volume target; otherwise the volume clause is not demanded',
+        'volume clause demanded when the target is reachable by the update within the move limits and l1init is below the root',
+        'l2init is a float (a Python int l2init grown beyond 2^53 by the bracket-growing loop is not modelled)',
         'runs whose step-size test is decided by less than 1e-9 relative are not compared (np.linalg.norm summation order not modelled)']
     ctx.trusted += [
         'Print Assumptions: theorems over R use ClassicalDedekindReals.sig_forall_dec, sig_not_dec, '
@@ -649,28 +651,11 @@ def run(ctx):
         cls, prob, obs = labels[idx]
         ctx.violation('correspondence', 'minimize_oc', 'model == implementation (bit-exact trajectory)', prob.get('malformed', cls),
                       dict(problem=prob, observed=obs, coq_check=checks[idx][1][:3000]), note='Coq model and implementation differ')
-    registered = any(f.get('call_site') == FINDING_SITE and f.get('predicate') == FINDING_PRED and f.get('input_class') == FINDING_CLASS
-                     for f in ctx.findings)
-    pending = 0
-    for h in hits:
+    for h in hits[:20]:
         info, pred, msg = h[0], h[1], h[2]
         prob = info['problem']
-        if len(h) > 3 and h[3] == FINDING_CLASS:
-            if registered:
-                ctx.violation('impl-violates', FINDING_SITE, FINDING_PRED, FINDING_CLASS, info, expected=msg)
-            else:
-                # not yet in known_findings.json: reported, listed in the evidence, does not fail the check
-                pending += 1
-                if pending <= 3:
-                    ctx.extra.setdefault('new_findings_pending_registration', []).append(
-                        dict(call_site=FINDING_SITE, predicate=FINDING_PRED, input_class=FINDING_CLASS, problem=prob, detail=msg,
-                             demo='findings/NEW_C17_oc_volume_large_gradients.py'))
-            continue
-        ctx.violation('impl-violates', 'minimize_oc', pred, prob.get('malformed', 'well-formed problem'), info, expected=msg)
-    if pending:
-        ctx.count('new-finding occurrences (pending registration in known_findings.json)', pending)
-        print(f'NEW-FINDING (pending registration): property=C17 {FINDING_SITE}: {FINDING_PRED} [{FINDING_CLASS}] on {pending} generated run(s); '
-              'demo findings/NEW_C17_oc_volume_large_gradients.py')
+        icls = h[3] if len(h) > 3 else prob.get('malformed', 'well-formed problem')
+        ctx.violation('impl-violates', FINDING_SITE, pred, icls, info, expected=msg)
 
 
 if __name__ == '__main__':
